@@ -321,6 +321,14 @@ def run(tier, replay=None):
     merged = {"eval_errors": stats["eval_errors"] + dstats["eval_errors"], "observed": stats["observed"] + dstats["observed"],
               "skipped_unmodelled": stats["skipped_unmodelled"] + dstats["skipped_unmodelled"], "spec_checked": stats["spec_checked"] + dstats["spec_checked"]}
     c01.decide(report, "C14", all_cases, all_obs, all_bad, merged, proof, SPEC_CODES, c01.MODEL_CODES)
+    # Item.decode of any valid encoding: <U1 7> inside 500 one-element lists
+    raw, res = common.nested_bytes(500), {"depth": 500, "bytes": 1003}
+    try:
+        from secsgem.secs.item import Item as _Item
+        res["decode"] = "ok" if _Item.decode(raw).encode() == raw else "wrong result"
+    except RecursionError:
+        res["decode"] = "RecursionError"
+    common.known_or_violation(report, "C14", "C14-deep-nesting", res["decode"] == "ok", res, "Item.decode of a valid encoding (deeply nested lists) failed", "deep")
     import hashlib
     distinct = set()
     kinds = {}
